@@ -7,7 +7,7 @@ s = open(p).read()
 marker = "### Independently written changes (`/verif/seeded/<id>/`)"
 s = s[:s.index(marker)]
 rows = []
-ids = sorted(d for d in os.listdir(os.path.join(root, "seeded")) if os.path.isdir(os.path.join(root, "seeded", d)))
+ids = sorted(d for d in os.listdir(os.path.join(root, "seeded")) if os.path.isfile(os.path.join(root, "seeded", d, "meta.json")))
 missed = 0
 for id in ids:
     m = json.load(open(os.path.join(root, "seeded", id, "meta.json")))
@@ -68,6 +68,34 @@ measurement, windows other than the library's default); (6) every violation
 tag must be listed by the check of its property: families are cross-included
 (`fam_union.go`) so that an obligation refuted in another check's workload is
 still reported.
+
+Later rounds (c, d) added: (7) generic scheduling jitter - in a third of all
+stepped cases every yield point hands the processor away 0-7 times (never
+sleeps, so it is safe under any lock); (8) virtual-time parks are conditional
+on who is calling (`YieldPlan.ParkIf`, decided from the goroutine's stack): a
+parked server-side carrier send holds the stream's write lock, which the
+receive loop takes when a cancel frame arrives, and a goroutine waiting for a
+`sync.Mutex` stalls the virtual clock - that produced one watchdog
+"inconclusive" in family startcancel before its parks were restricted to
+client-side callers; goroutines about to send a window update are recognised
+the same way and held in clean runs; (9) systematic single-delay exploration
+in real time (`parkexplore`: every yield point x 8 hit indices x 7
+event-driven scenarios) for windows the stepped engine cannot open safely, and
+dedicated families for the two windows that matter most (`readwindow`: a
+reader just before its dequeue; `finishwindow`: the client's finish path after
+the outcome was decided) - the latter after a corpus re-run showed that one
+kept change (C07-d) was caught in only some runs; (10) inputs that were in a
+generator's list but silently unrepresentable in the scripted RPC (an empty
+header value) - the script language now has an explicit token for them; (11)
+usage diversity again: a client stream interceptor on the carrying
+connection, callers whose context can never be cancelled, callers whose
+context derives from another tunnelled call, three and more sends on a
+non-streaming side, lifecycle calls repeated and out of order, colliding
+per-RPC credential keys, context causes; (12) after a tunnel-level abort by
+the client the raw peer must see the carrier stream half-closed or ended
+("both ends observe it"); (13) hostile peers combine deviations (announced
+window x overrun); (14) `selftest/run_corpus.sh` re-runs every kept change
+against its check after harness changes (70 changes: all reported).
 '''
 open(p, "w").write(s)
 print(summary, "total missed", missed, "of", len(ids))
